@@ -242,6 +242,19 @@ def build_harness():
                 "changed shape)", (out + err)[-3000:])
 
 
+ENDPOINT_TARGET = os.path.join(HARNESS, "target_endpoint")
+ENDPOINT_BIN = os.path.join(ENDPOINT_TARGET, "release", "trusttunnel_endpoint")
+
+
+def build_endpoint_bin():
+    """The real endpoint binary (endpoint/src/main.rs) from /repo's working tree, into a target directory of ours."""
+    with Lock("cargo-endpoint"):
+        env = dict(os.environ, CARGO_TARGET_DIR=ENDPOINT_TARGET, CARGO_NET_OFFLINE="true")
+        rc, out, err = sh("timeout 3000 cargo build --release --offline -p trusttunnel_endpoint 2>&1", cwd=REPO, timeout=3100, env=env)
+        if rc != 0 or not os.path.exists(ENDPOINT_BIN):
+            raise Broken("the endpoint binary no longer builds from /repo's working tree", (out + err)[-3000:])
+
+
 # ---------------------------------------------------------------- running cases
 
 
